@@ -233,9 +233,25 @@ class Tr:
                 if v[0] in ("int", "bvint"):
                     return v
                 raise Untranslatable("int() of " + v[0])
+            if fn == "round" and len(args) == 1:
+                # round(x) with one argument: nearest integer, ties to even (float.__round__)
+                v = args[0]
+                if v[0] == "fp":
+                    return ("bvint", z3.fpToSBV(z3.RNE(), v[1], z3.BitVecSort(64)))
+                if v[0] in ("int", "bvint"):
+                    return v
+                raise Untranslatable("round() of " + v[0])
             if fn in ("min", "max") and len(args) == 2:
                 lt = self.compare(ast.Lt(), args[1], args[0])[1] if fn == "min" else self.compare(ast.Gt(), args[1], args[0])[1]
                 return self.ite(lt, args[1], args[0])
+        if (isinstance(node, ast.Call) and isinstance(node.func, ast.Attribute) and isinstance(node.func.value, ast.Name)
+                and node.func.value.id == "math" and node.func.attr in ("floor", "ceil", "trunc") and len(node.args) == 1):
+            v = self.expr(node.args[0])
+            if v[0] == "fp":
+                rm = {"floor": z3.RTN(), "ceil": z3.RTP(), "trunc": z3.RTZ()}[node.func.attr]
+                return ("bvint", z3.fpToSBV(rm, v[1], z3.BitVecSort(64)))
+            if v[0] in ("int", "bvint"):
+                return v
         raise Untranslatable("unsupported expression: " + ast.dump(node)[:120])
 
     def ite(self, c, a, b):
